@@ -339,7 +339,9 @@ def rHandle (o : Nat) : Nat := nSlots + o
 def rExist (o : Nat) : Nat := nSlots + nObjs + o
 def rCall (k : Nat) : Nat := nSlots + 2 * nObjs + k
 def rSent (k : Nat) : Nat := nSlots + 2 * nObjs + nCalls + k
-def nFixed : Nat := nSlots + 2 * nObjs + nCalls + nSents
+/-- the pending input_to of the (single) interactive user -/
+def rInput : Nat := nSlots + 2 * nObjs + nCalls + nSents
+def nFixed : Nat := nSlots + 2 * nObjs + nCalls + nSents + 1
 
 def St.init : St := { roots := List.replicate nFixed (.num 0) }
 
@@ -357,6 +359,7 @@ inductive Op where
   | call (k o st s t : Nat) | rmcall (k : Nat) | sweep
   | sent (k o s t : Nat) | rmsent (k : Nat)
   | err (s t : Nat) | efun (f s t : Nat)
+  | inp (o s t : Nat) | input
   | clones (n : Nat) | unclone (n : Nat)   -- program counter probe, see ProgRef in Drive.lean
   deriving Repr
 
@@ -580,6 +583,33 @@ def compile (s : St) (op : Op) : Option (List Mi) :=
         | some (c, _) => c == sc.tag
         | none => false)
       if k < nSents && reachable then some [.take (.root (rSent k)), .free, .allocd (-2), .distinct (-1)] else none
+    | none => none
+  | .inp o a b =>
+    -- input_to("icb", 0, a, b) called by object o for the interactive user: sentence -> (carry-over array, function
+    -- pointer owned by o).  destruct_object(o) does NOT remove it (sentence->ob is 0), only the next input does.
+    match objCell s o with
+    | some (_, _) =>
+      if a < nSlots && b < nSlots && isNumRoot s rInput then
+        some [.alloc .arr 2 false "" 0, .dup (.root a), .put (.item fresh 0), .dup (.root b), .put (.item fresh 1),
+              .alloc .fn 2 false "" 0, .dup (.root (rHandle o)), .put (.item (fresh + 1) 1),
+              .alloc .sent 2 false "" 0, .swap, .put (.item (fresh + 2) 1), .swap, .put (.item (fresh + 2) 0),
+              .put (.root rInput)]
+      else none
+    | none => none
+  | .input =>
+    -- call_function_interactive: local references on the function pointer and the carry-over array, free_sentence,
+    -- arguments pushed, array released, callback (or its "owner is destructed" error), arguments popped,
+    -- local reference on the function pointer released
+    match slotCell s rInput with
+    | some (sc, scell) =>
+      match scell.items with
+      | [.ptr vs, .ptr _] =>
+        some [.dup (.item sc 1), .dup (.item sc 0), .take (.root rInput), .free,
+              .pushRoot, .dup (.item vs 0), .put (.root top), .pushRoot, .dup (.item vs 1), .put (.root (top + 1)),
+              .free,
+              .take (.root (top + 1)), .free, .popRoot, .take (.root top), .free, .popRoot,
+              .free]
+      | _ => none
     | none => none
   | .err _ _ => none
   | .efun _ _ _ => none
